@@ -265,12 +265,14 @@ class Engine:
         self.recording = False
         head = state
         body_out = None
-        for _ in range(MAX_ITER):
+        for it_ in range(MAX_ITER):
             entry, _exit = self._loop_entry(s, head, is_while, const_true, Completions())
             body_out = self.block(s.body, entry) if entry is not None else Completions()
             back = self._join([state] + [self.a.scope_exit(state, x) for x in body_out.normal + body_out.continues])
             if self.a.leq(back, head) and self.a.leq(head, back):
                 break
+            if it_ >= 3 and hasattr(self.a, "widen"):
+                back = self.a.widen(head, back)          # bounds that keep moving (a counter counting up) are given up
             head = back
         else:
             raise AnalysisError(f"loop fixpoint not reached in {self.fn.qual}")
